@@ -1,5 +1,6 @@
 import RV.Proofs.BinWriter
 import RV.Proofs.Cadence
+import RV.Proofs.BinPersist
 /-
   C06 — every archive snapshot equals the live state when taken, under any history.
 
@@ -201,6 +202,57 @@ theorem c06_cadence_step_exact (step : Nat) (hd : 0 < step) (p next : Nat) (ts :
     (hinv : p < next) (hc : RV.Cadence.ChainStep step p ts) :
     RV.Cadence.ExactStep step next ts (RV.Cadence.runStep step next ts).1 :=
   RV.Cadence.cadence_step_exact step hd p next ts hinv hc
+
+/-- **cadence, wall-time mode** (`auto_walltime`; the wall clock is an arbitrary input): for EVERY sequence of clock
+    values seen by the heartbeat a snapshot is taken iff the prescribed wall time has been reached — never early,
+    never omitted, at most one per heartbeat -/
+theorem c06_cadence_walltime_sound (d next : Int) (ws : List Int) :
+    RV.Cadence.WallSound d next ws (RV.Cadence.runWall RV.Cadence.intOps d next ws).1 :=
+  RV.Cadence.wall_sound d next ws
+
+/-- … `next` advances by exactly one interval per snapshot … -/
+theorem c06_cadence_walltime_next (d next : Int) (ws : List Int) :
+    (RV.Cadence.runWall RV.Cadence.intOps d next ws).2
+      = next + (RV.Cadence.count (RV.Cadence.runWall RV.Cadence.intOps d next ws).1 : Int) * d :=
+  RV.Cadence.wall_next d next ws
+
+/-- … and when the clock is non-decreasing and advances by at most one interval between heartbeats the cadence is
+    exact (first heartbeat at or after each prescribed wall time, none skipped) -/
+theorem c06_cadence_walltime_exact (d : Int) (hd : 0 < d) (p next : Int) (ws : List Int)
+    (hinv : p < next) (hc : RV.Cadence.Chain 1 d p ws) :
+    RV.Cadence.Exact 1 d next ws (RV.Cadence.runWall RV.Cadence.intOps d next ws).1 :=
+  RV.Cadence.wall_exact d hd p next ws hinv hc
+
+/-- **bridge to C05** (field-level model RV/Model/Persist.lean, descriptor-driven `encode`/`decodeFields` over
+    `(id, List UInt8)`): with the adapter `toBin`/`toP` (same id, size = payload length, bytes as naturals) the byte
+    stream of a simulation is `encStream hdr (fields)`, and parsing it gives the fields back -/
+theorem c06_c05_fields_of_stream (hdr : Bytes) (hh : hdr.length = 64) (fs : List RV.Persist.Field)
+    (h : RV.BinPersist.StreamOK fs) :
+    RV.BinPersist.fieldsOfBytes (RV.BinPersist.streamBytes hdr fs) = some fs :=
+  RV.BinPersist.fields_of_stream hdr hh fs h
+
+/-- **C05's codec lifts to bytes**: byte-level load ∘ byte-level save = field-level decode ∘ field-level encode,
+    for every table and simulation whose stream has ids < 2³², payloads < 2⁶⁴ bytes and END id 9999 -/
+theorem c06_c05_decode_encode_bytes (hdr : Bytes) (hh : hdr.length = 64) (psz : Nat) (sp : RV.Persist.Special)
+    (tbl : List RV.Persist.Desc) (s init : RV.Persist.Sim) (fp : Bool)
+    (hs : RV.BinPersist.StreamOK (RV.Persist.body sp (RV.Persist.encode psz sp tbl s fp))) :
+    RV.BinPersist.decodeBytes psz sp tbl init (RV.BinPersist.encodeBytes hdr psz sp tbl s fp)
+      = some (RV.Persist.decodeFields psz sp tbl (init, []) (RV.Persist.encode psz sp tbl s fp)) :=
+  RV.BinPersist.decodeBytes_encodeBytes hdr hh psz sp tbl s init fp hs
+
+/-- hence `decodeBytes (encodeBytes img) = img` (C05's round trip, on the real byte stream) -/
+theorem c06_c05_bytes_roundtrip (hdr : Bytes) (hh : hdr.length = 64) {psz : Nat} {sp : RV.Persist.Special}
+    {tbl : List RV.Persist.Desc} (ok : RV.Persist.TableOK psz sp tbl) (s init : RV.Persist.Sim)
+    (hwf : RV.Persist.WF psz tbl s) (hp : RV.Persist.Persisted psz tbl init s)
+    (hs : RV.BinPersist.StreamOK (RV.Persist.body sp (RV.Persist.encode psz sp tbl s false))) :
+    RV.BinPersist.decodeBytes psz sp tbl init (RV.BinPersist.encodeBytes hdr psz sp tbl s false) = some (s, []) :=
+  RV.BinPersist.bytes_roundtrip hdr hh ok s init hwf hp hs
+
+/-- the payload-level reader of the byte model on a C05 stream is "later value wins" on its field list -/
+theorem c06_c05_applyB_stream (hdr : Bytes) (hh : hdr.length = 64) (fs : List RV.Persist.Field)
+    (h : RV.BinPersist.StreamOK fs) (hnh : ∀ f ∈ fs, f.1 ≠ HEADER) (st : State) :
+    applyB st ((RV.BinPersist.streamBytes hdr fs).drop 64) = applyF st (fs.map RV.BinPersist.toBin) :=
+  RV.BinPersist.applyB_stream hdr hh fs h hnh st
 
 /-- the reader's index arrays (capacity 1024, enlarged by 1024 when `i == nblobsmax-1`) always have slot `i`
     when blob `i` is recorded, for every number of blobs: the unbounded `indexLoop` of the model is what the
